@@ -65,6 +65,24 @@ instance (a b : Genome W) : Decidable (SharedHead a b) := by unfold SharedHead; 
 def KindsValid (g : Genome W) : Prop := ∀ n ∈ g.nodes, n.kind ≤ 3
 instance (g : Genome W) : Decidable (KindsValid g) := by unfold KindsValid; infer_instance
 
+/-- ids of the input/bias/output nodes, in node order -/
+def ioIds (g : Genome W) : List Int := (g.nodes.filter (fun n => n.kind != Kind.hidden)).map (·.id)
+
+/-- the node/trait part of `SameLineage` (its clauses 2–4): a node id has one role in both genomes, same trait ids,
+    same input/bias/output ids.  This is all the well-formedness closure needs of a common ancestry; the gene clause
+    of `SameLineage` (an innovation number denotes one link) is property C03. -/
+def NodeLineage (a b : Genome W) : Prop :=
+  (∀ n ∈ a.nodes, ∀ m ∈ b.nodes, n.id = m.id → n.kind = m.kind) ∧ traitIds a = traitIds b ∧ ioIds a = ioIds b
+instance (a b : Genome W) : Decidable (NodeLineage a b) := by unfold NodeLineage; infer_instance
+
+theorem nodeLineage_of_sameLineage {a b : Genome W} (h : SameLineage a b) : NodeLineage a b := ⟨h.2.1, h.2.2.1, h.2.2.2⟩
+
+/-- every recorded innovation number exceeds the number of the genome's first gene (records are made of numbers
+    handed out after the population was spawned) -/
+def HeadBelowRecords (reg : Reg W) (g : Genome W) : Prop :=
+  ∀ h ∈ g.genes.take 1, ∀ i ∈ reg.records, (i.typ = 2 → h.inn < i.inn) ∧ (i.typ = 1 → h.inn < i.inn ∧ h.inn < i.inn2)
+instance (reg : Reg W) (g : Genome W) : Decidable (HeadBelowRecords reg g) := by unfold HeadBelowRecords; infer_instance
+
 /-- `WF` plus the non-zero trait ids and valid kind codes: the well-formedness the closure theorems preserve -/
 structure WFT (g : Genome W) : Prop where
   wf : WF g
